@@ -374,6 +374,8 @@ func runC08(cx *ctx) {
 			})
 		}
 	}
+	// hand-built texts and call interleavings (c08_extra.go)
+	c08Extra(cx)
 }
 
 // armorTrailCases: the region after the END line under every delivery schedule.
